@@ -48,6 +48,7 @@ type Request struct {
 	disableAutoReadResponse  bool
 	forceChunkedEncoding     bool
 	isSaveResponse           bool
+	digestAuth               bool // SetDigestAuth: a 401 Digest challenge is answered by a second request
 	close                    bool
 	error                    error
 	client                   *Client
@@ -447,6 +448,7 @@ func (r *Request) SetBasicAuth(username, password string) *Request {
 //
 // This method overrides the username and password set by method `Client.SetCommonDigestAuth`.
 func (r *Request) SetDigestAuth(username, password string) *Request {
+	r.digestAuth = true
 	r.OnAfterResponse(handleDigestAuthFunc(username, password))
 	return r
 }
